@@ -921,17 +921,17 @@ class sptensor:
 
             if self.nnz < other.nnz:
                 [subsSelf, valsSelf] = self.find()
-                valsOther = other[subsSelf]
+                valsOther = np.reshape(other[subsSelf], (-1, 1))
             else:
                 [subsOther, valsOther] = other.find()
-                valsSelf = self[subsOther]
+                valsSelf = np.reshape(self[subsOther], (-1, 1))
             return valsOther.transpose().dot(valsSelf).item()
 
         if isinstance(other, ttb.tensor):
             if self.shape != other.shape:
                 assert False, "Sptensor and tensor must be same shape for innerproduct"
             [subsSelf, valsSelf] = self.find()
-            valsOther = other[subsSelf]
+            valsOther = np.reshape(other[subsSelf], (-1, 1))
             return valsOther.transpose().dot(valsSelf).item()
 
         if isinstance(other, (ttb.ktensor, ttb.ttensor)):  # pragma: no cover
